@@ -165,9 +165,61 @@ func runC03(r *Run) {
 		_, acc := judgeBackends(r, evalCase{src, g.useFns}, vars)
 		if acc {
 			r.Nontrivial(src)
+			if i%2 == 0 {
+				reinvokeGenerated(r, evalCase{src, g.useFns}, vars)
+			}
 		}
 		if i < 3 {
 			r.Sample(src)
+		}
+	}
+}
+
+// reinvokeGenerated: a generated program compiled ONCE per back end and invoked on three environments in turn (the
+// standard one, another one, the standard one again): every invocation must equal a fresh compilation run on that
+// environment. Catches state kept in a Callable between invocations (caches, pooled buffers, memoised thunks) for
+// program shapes nobody thought of listing.
+var altVals map[string]*val.Val
+
+func reinvokeGenerated(r *Run, c evalCase, vars []envVar) {
+	if altVals == nil {
+		altVals = stdValues()
+		altVals["x"], altVals["y"], altVals["z"], altVals["b"], altVals["f"], altVals["s"], altVals["e"] = val.Num(-4), val.Num(0.5), val.Num(2), val.False, val.True, val.Str("zz"), val.Str("q")
+		altVals["xs"] = mkList(types.Num, val.Num(5), val.Num(-1.5))
+		altVals["ss"] = mkList(types.Str, val.Str("z"))
+		altVals["m"] = mkMap(types.Str, types.Num, val.Str("k"), val.Num(9), val.Str("zz"), val.Num(1))
+		altVals["mb"], altVals["mz"] = val.Nothing(types.Num), val.Just(types.Num, val.Num(8))
+	}
+	seq := []map[string]*val.Val{stdValues(), altVals, stdValues()}
+	for _, be := range backends {
+		tl := &traceLog{}
+		var cl yae.Callable
+		var cerr error
+		if pan, _ := protect(func() { cl, cerr = newExpr(be, tl, c.withFns).Compile(c.src, typeEnvOf(vars)) }); pan || cerr != nil {
+			continue
+		}
+		for k, vals := range seq {
+			var got outcome
+			tl.ev = nil
+			var v *val.Val
+			var err error
+			mark(fmt.Sprintf("invocation #%d of one Callable for generated %q on back end %s", k+1, c.src, be))
+			pan, msg := protect(func() { v, err = cl(valEnvOf(vals)) })
+			got.trace = tl.ev
+			switch {
+			case pan:
+				got.cls = classify(msg)
+			case err != nil:
+				got.cls = classify(err.Error())
+			default:
+				got.cls, got.v = "value", v
+			}
+			want := runOn(be, c.src, vars, vals, c.withFns)
+			r.Count("re-invocation cases (generated programs)")
+			if !obsEqual(got, want) {
+				r.Violate("reinvocation-differs-from-fresh-compilation", fmt.Sprintf("%q on %s, invocation #%d of one Callable", c.src, be, k+1), fmt.Sprintf("got %s, a fresh compilation gives %s", brief(got), brief(want)))
+				return
+			}
 		}
 	}
 }
